@@ -3,6 +3,7 @@
   `lake env lean --run Main.lean < scenarios.jsonl`
 -/
 import GruleModel.Codec
+import GruleModel.Syntax.Build
 import GruleModel.Gen.ArithTables
 import GruleModel.Catalog
 open Lean Grule Grule.Codec
@@ -158,6 +159,27 @@ def doOp (w : World) (op : Json) : P (World × Json) := do
   match get "op" with
   | "build" =>
     let ft := floatTexts op
+    if fieldOpt op "front" == some (.bool true) then
+      -- the model reads the text itself: lexer, parser, literal decoding (Syntax/*), then Library.build
+      let text := (get "text").toList
+      let fo := Syntax.front text
+      let kb := w.kb kbKey kbName ver
+      if fo.verdict == .unmodelled then
+        pure ({ w with kbs := assocSet kbKey kb w.kbs }, Json.mkObj [("out", jstr "unmodelled: string literal with a byte escape ≥ 0x80")])
+      else
+      let (kb', errs) := kb.buildText text
+      let intended : List (String × Json) ← match fieldOpt op "rules" with
+        | some rj => do
+          let rules ← (← arr rj).toList.mapM rule
+          pure [("astEq", Json.bool (fo.verdict == .accepted && rules.map snapRule == fo.rules.map snapRule))]
+        | none => pure []
+      let res := [("ok", Json.bool (errs == 0)), ("rules", rulesJ kb'.entries),
+        ("verdict", jstr (reprStr fo.verdict)), ("lexErrs", (fo.lexErrs : Nat)), ("grammatical", Json.bool fo.grammatical),
+        ("parsed", .arr (fo.rules.map (fun r => jsnap (snapRule r))).toArray)] ++ intended ++
+        (if fieldOpt op "wm" == some (.bool true) then
+          [("wm", wmJ (kb'.wm.restrict (kb'.entries.filter (fun e => !e.deleted))))] else [])
+      pure ({ w with kbs := assocSet kbKey kb' w.kbs }, Json.mkObj res)
+    else
     match fieldOpt op "rules" with
     | none =>
       -- a text the scenario gives no AST for (a rejected one): the knowledge base exists afterwards; what the
@@ -166,7 +188,7 @@ def doOp (w : World) (op : Json) : P (World × Json) := do
       pure ({ w with kbs := assocSet kbKey kb w.kbs }, Json.mkObj [("skip", jstr "no AST")])
     | some rj =>
       let rules ← (← arr rj).toList.mapM rule
-      let (kb', errs) := (w.kb kbKey kbName ver).build ft rules
+      let (kb', errs) := (w.kb kbKey kbName ver).build (LitText.ofFloats ft) rules
       let res := [("ok", Json.bool (errs == 0)), ("rules", rulesJ kb'.entries)] ++
         (if errs == 0 then [] else [("nerr", Json.num (errs : Nat))]) ++
         (if fieldOpt op "wm" == some (.bool true) then
